@@ -722,14 +722,24 @@ func generate(f *rep.Flags, bounds map[string]any, emit func(*Case)) {
 
 	// F4c: three plugins, one update each, every non-empty subset of three fields of ONE target
 	// (claimed in different positions of the implementation's field order), every ignore-failure placement
-	if want("updates3") {
-		f3 := []merge.Item{{Kind: "mem.limit"}, {Kind: "cpu.shares"}, {Kind: "pids"}}
+	// F4d (`updkeyed`): the same shape over two keys of the unified map plus two fields claimed
+	// after it (rdt class, pids): an ignored update that conflicts late must leave no key behind
+	// in a map the target's entry already holds
+	for _, fam := range []struct {
+		name string
+		f3   []merge.Item
+	}{{"updates3", []merge.Item{{Kind: "mem.limit"}, {Kind: "cpu.shares"}, {Kind: "pids"}}},
+		{"updkeyed", []merge.Item{{Kind: "unified", Key: "ua"}, {Kind: "unified", Key: "ub"}, {Kind: "rdt"}, {Kind: "pids"}}}} {
+		if !want(fam.name) {
+			continue
+		}
+		f3 := fam.f3
 		type uo struct {
 			mask   int
 			ignore bool
 		}
 		var opts []uo
-		for m := 1; m < 8; m++ {
+		for m := 1; m < 1<<len(f3); m++ {
 			opts = append(opts, uo{m, false}, uo{m, true})
 		}
 		fm3, _ := fullOrig(true)
@@ -740,7 +750,7 @@ func generate(f *rep.Flags, bounds map[string]any, emit func(*Case)) {
 			for _, a := range opts {
 				for _, b := range opts {
 					for _, cc := range opts {
-						c := &Case{Family: "updates3", Chan: rq.kind + ".updates", Focus: []string{"updates"}, Prepop: rq.prepop,
+						c := &Case{Family: fam.name, Chan: rq.kind + ".updates", Focus: []string{"updates"}, Prepop: rq.prepop,
 							Req: merge.Request{Kind: rq.kind, ID: own, Orig: rq.orig}}
 						for p, o := range []uo{a, b, cc} {
 							mu := merge.Update{Target: rq.target, Ignore: o.ignore}
